@@ -177,9 +177,17 @@ def main():
                 for c in list(children):
                     try:
                         await c
-                    except BaseException:  # noqa
+                    except asyncio.CancelledError:
                         pass
-        asyncio.run(prog())
+                    except RuntimeError as e:
+                        if "TaskGroup" not in str(e):       # (a spawn into a scope that is already over is refused: not C03's concern)
+                            problems.append(f"a task of the program failed with {e!r}")
+                    except BaseException as e:  # noqa  (the generated programs raise nothing themselves)
+                        problems.append(f"a task of the program failed with {e!r}: entering or leaving one of its own blocks raised")
+        try:
+            asyncio.run(prog())
+        except BaseException as e:  # noqa
+            problems.append(f"the program failed with {e!r}: entering or leaving a block of the main task raised")
         if problems:
             p = problems[0]
             break
